@@ -19,7 +19,7 @@ WORKERS = {"quick": 4, "thorough": 16}
 WTESTS = {"groups": ['descriptor_format'], "tests": ['tests/utils', 'tests/decay']}
 REQUIRED = {"nesting-depth>=3": 50, "reused-object-sequentially": 50, "reentrant-object": 50, "object-created-before-set_config": 50,
             "leave-by-exception-at-depth>=2": 50, "enter-invalid-context": 50, "render": 500,
-            "valid-pattern-with-repeated-placeholder": 20, "render:parser-descriptors": 100,
+            "valid-pattern-with-repeated-placeholder": 20, "kept-format-handed-back": 20, "render:parser-descriptors": 100,
             **{f"invalid:{k}": 20 for k in ("missing-mother", "missing-daughters", "extra-named", "positional", "attribute", "index", "nested-in-spec", "second-only", "repeated-mother-no-daughters", "repeated-daughters-no-mother", "repeat-inside-spec-no-daughters", "blank-in-name", "blank-in-name-second", "tab-in-name", "empty-second", "empty-first")},
             "C14.exit.restores_entry_format": 500, "C14.set_config.rejected_leaves_format": 500}
 EXHAUSTIVE_NOTE = "every well-nested history over the reduced alphabet {N,E,F,L,X,V,I,B,R} of length exactly L (7 quick, 8 thorough) -- all shorter ones are prefixes"
@@ -64,6 +64,7 @@ class Model:
         self.objs = []        # pattern pair of each context object
         self.saved = []       # stack of (object index, format at entry)
         self.used = set()
+        self.kept = None      # format at the moment the caller kept DescriptorFormat.config
 
     def entered(self):
         return [i for i, _ in self.saved]
@@ -101,6 +102,7 @@ class Exec:
         contracts.SHADOW.clear()
         contracts.drain()
         self.m = Model()
+        self.kept = None
         self.real = []
         self.set_since_new = {}
 
@@ -161,6 +163,17 @@ class Exec:
                     self.fail("enter:invalid-accepted:" + op[1], f"context with pattern {INVALID[op[1]]!r} was entered", hist, i)
             except ValueError:
                 pass
+        elif k == "keep":
+            # the caller keeps "the format in force" by taking the documented class variable as it is ...
+            self.kept = DF.config
+            m.kept = m.cur
+            self.ctx.hit("format-kept-by-reference")
+        elif k == "restore_kept":
+            # ... and later hands it back to set_config: the format of that moment is in force again
+            if getattr(self, "kept", None) is not None and m.kept is not None:
+                self.ctx.hit("kept-format-handed-back")
+                DF.set_config(**self.kept)
+                m.cur = m.kept
         elif k == "render":
             self.ctx.hit("render")
             s = self.chain.to_string()
@@ -268,6 +281,10 @@ def random_history(rng, n):
             hist.append(("set_invalid", rng.choice(INV_KEYS)))
         elif r < 0.88:
             hist.append(("enter_invalid", rng.choice(INV_KEYS)))
+        elif r < 0.91:
+            hist.append(("keep",))
+        elif r < 0.94:
+            hist.append(("restore_kept",))
         else:
             hist.append(("render",))
     while entered and rng.random() < 0.8:
